@@ -384,6 +384,7 @@ func init() { registerReplay("C10", propC10) }
 
 const c10Rule = "rapid-generated: 1..3 nesting levels (each in-process handler makes the next call from its own context, so the caller's context carries an enclosing call's incoming metadata, peer, transport stream and client-context key), 0..6 context values per level under string/int/struct/pointer/typed keys, outgoing metadata present or absent per level, incoming metadata and a foreign peer planted in the outermost context, optional deadline, unary or streaming per level, with/without server interceptors, optional cancellation of the outermost caller, optional metadata mutation on both sides; " +
 	"oracle in every handler: ctx.Value(k) == nil for every key of every enclosing caller; ClientContext(ctx) is the caller's context and yields its values; incoming metadata = caller's outgoing metadata (none => none); peer network inproc; deadline equal to the caller's; ServerTransportStream.Method() is this call's method; cancellation reaches the innermost handler; metadata mutation on one side invisible on the other; " +
+	"also generated since the seeded rounds: callers mutating their metadata map after the call started, grpc-prefixed application keys (grpc-trace-bin, ...), a caller peer with TLS auth info (the handler's peer must stay purely in-process); " +
 	"non-trivial = >=1 caller value and (nested or outgoing metadata present); distinct by case hash"
 
 func TestC10(t *testing.T) {
